@@ -226,12 +226,163 @@ def generate(repo=REPO):
     return out
 
 
+
+# --------------------------------------------------------------------------
+# use sites of the accessors / RAII classes that WRITE unsynchronised global cells
+# (cells whose guard is "only touched from single-threaded setup code")
+
+UNSYNC_APIS = [
+    # (api label, regex of a use, cell it writes)
+    ("ScopedMem", r"\bScopedMem\s*(?:\w+\s*)?[({]", "corecel/sys/MemRegistry.cc:mr"),
+    ("mem_registry()", r"\bmem_registry\s*\(\s*\)", "corecel/sys/MemRegistry.cc:mr"),
+    ("environment()", r"\benvironment\s*\(\s*\)", "corecel/sys/Environment.cc:result"),
+    ("activate_device", r"\bactivate_device(?:_local)?\s*\(", "corecel/sys/Device.cc:device"),
+    ("kernel_registry()", r"\bkernel_registry\s*\(\s*\)", "corecel/sys/KernelRegistry.cc:kr"),
+    ("logger-setter", r"\b(?:world_logger|self_logger)\s*\(\s*\)\s*\.\s*(?:level|handle)\s*\(\s*[^)\s]", "corecel/io/Logger.cc:logger"),
+    ("ScopedMpiInit", r"\bScopedMpiInit\s+\w+\s*[({;]", "corecel/sys/ScopedMpiInit.cc:status_"),
+]
+CONTROL_KW = re.compile(r"^(if|for|while|switch|catch|else|do|try|return)\b")
+PER_STREAM_CLASS = re.compile(r"^(CoreState|Stepper|AuxStateVec|StreamStore|CollectionStateStore|ActionSequence|Transporter|"
+                              r"\w*(Executor|Applier|Launcher|Interactor|TrackView|StepView|GatherAction))(<[^>]*>)?$")
+PER_STREAM_FUNC = {"step", "step_impl", "begin_run", "begin_run_impl", "create_state", "process_steps", "launch_action",
+                   "launch_core", "launch_impl", "reseed", "reseed_rng", "resize", "warm_up", "kill_active", "reset",
+                   "reset_state", "make_aux_state", "state", "state_ref", "execute", "accum", "simple_calo_accum"}
+PER_STREAM_CALLABLE = re.compile(r"(Executor|Applier|Action|Interactor|Launcher|Stepper|Sampler|Distribution|Generator|Propagator)(<[^>]*>)?$")
+
+
+def is_per_stream(func):
+    """heuristic: is this (qualified) function executed once per stream / per step?"""
+    parts = [q for q in re.split(r"::(?![^<]*>)", func) if q]
+    if not parts:
+        return False
+    last = parts[-1]
+    cls = parts[-2] if len(parts) > 1 else ""
+    if any(PER_STREAM_CLASS.match(q) for q in parts[:-1]) or (cls and re.sub(r"<.*", "", cls) == re.sub(r"[~<].*", "", last.lstrip("~")) and PER_STREAM_CLASS.match(cls)):
+        return True
+    if last in PER_STREAM_FUNC:
+        return True
+    if last.startswith("operator()") and PER_STREAM_CALLABLE.search(cls or ""):
+        return True
+    return False
+
+
+def use_sites(rel, src):
+    """[(file, enclosing function, api, per_stream)] for every use of an unsynchronised-cell writer"""
+    txt = strip(src)
+    hits = []
+    for api, rx, cell in UNSYNC_APIS:
+        for m in re.finditer(rx, txt):
+            hits.append((m.start(), api))
+    if not hits:
+        return []
+    hits.sort()
+    out = []
+    stack = []            # (kind, name)
+    last_func = {}        # nesting level -> name of the function block that closed last
+    stmt_start = 0
+    paren = 0
+    hi = 0
+    for i, ch in enumerate(txt):
+        while hi < len(hits) and hits[hi][0] == i:
+            api = hits[hi][1]
+            hi += 1
+            funcs = [n for k, n in stack if k == "function"]
+            head = " ".join(txt[stmt_start:i].split())
+            if funcs:
+                where = funcs[0]
+            elif any(k == "class" for k, n in stack):
+                where = "(class scope) " + [n for k, n in stack if k == "class"][-1]
+            else:
+                # namespace scope: a declaration / definition header of the accessor itself,
+                # or a constructor's initialiser list written out of class
+                mctor = re.search(r"((?:[\w~]+(?:<[^<>]*>)?::)+~?\w+)\s*\(", head)
+                if mctor and ":" in head.split(")")[-1]:
+                    where = mctor.group(1)
+                else:
+                    continue
+            out.append((rel, where, api, is_per_stream(where)))
+        if ch == "(":
+            paren += 1
+        elif ch == ")":
+            paren = max(0, paren - 1)
+        elif ch == "{" and paren == 0:
+            head = " ".join(txt[stmt_start:i].split())
+            level = len(stack)
+            in_func = any(k == "function" for k, n in stack)
+            if in_func:
+                stack.append(("block", ""))
+            elif re.search(r"(^|\s)namespace(\s+[\w:]+)?\s*$", head) or re.search(r'extern\s*""\s*$', head):
+                stack.append(("namespace", ""))
+            elif "(" not in head and re.search(r"\b(class|struct|union)\s+(?:\w+\s+)*?(\w+)\s*(?:final\s*)?(?::[^{;]*)?$", head):
+                mm = re.search(r"\b(class|struct|union)\s+(?:CELER\w*\s+)?(\w+)", head)
+                stack.append(("class", mm.group(2)))
+            elif "(" in head and not CONTROL_KW.match(head):
+                mm = re.search(r"((?:[\w~]+(?:<[^<>()]*>)?::)*(?:operator\s*\(\s*\)|operator[^\s(]+|~?\w+))\s*\(", head)
+                name = mm.group(1).replace(" ", "") if mm else "?"
+                if name.startswith("operator()") or name.endswith("::operator()"):
+                    pass
+                cls = [n for k, n in stack if k == "class"]
+                if cls and "::" not in name:
+                    name = cls[-1] + "::" + name
+                stack.append(("function", name))
+            elif (head == "" or head.startswith(",")) and level in last_func:
+                stack.append(("function", last_func[level]))      # rest of a ctor init list / its body
+            else:
+                stack.append(("other", ""))
+            stmt_start = i + 1
+        elif ch == "}" and paren == 0:
+            if stack:
+                k, n = stack.pop()
+                if k == "function":
+                    last_func[len(stack)] = n
+                elif k != "block":
+                    last_func.pop(len(stack), None)
+            stmt_start = i + 1
+        elif ch == ";" and paren == 0:
+            if not any(k == "function" for k, n in stack):
+                last_func.pop(len(stack), None)
+            stmt_start = i + 1
+    res = []
+    for u in out:
+        if u not in res:
+            res.append(u)
+    return res
+
+
+def generate_uses(repo=REPO):
+    uses = []
+    for d in DIRS:
+        root = os.path.join(repo, "src", d)
+        for dp, dns, fns in os.walk(root):
+            dns.sort()
+            for fn in sorted(fns):
+                if not fn.endswith((".hh", ".cc", ".h")):
+                    continue
+                p = os.path.join(dp, fn)
+                rel = os.path.relpath(p, os.path.join(repo, "src"))
+                try:
+                    src = open(p, errors="replace").read()
+                except OSError:
+                    continue
+                uses += use_sites(rel, src)
+    return uses
+
 def coq_str(s):
     return '"' + s.replace('"', '""') + '"'
 
 
-def emit(cells, repo=REPO):
+def emit(cells, repo=REPO, uses=None):
     body = ";\n   ".join("(%s, %s, %s)" % (coq_str(f), coq_str(n), coq_str(k)) for f, n, k in cells)
+    if uses is None:
+        uses = generate_uses(repo)
+    ubody = ";\n   ".join("(%s, %s, %s, %s)" % (coq_str(f), coq_str(fn), coq_str(a), "true" if ps else "false") for f, fn, a, ps in uses)
+    return emit_cells(body, repo) + (
+        "\n(* (file, enclosing function, api, on-a-per-stream-path?) of every use of an accessor / RAII class that\n"
+        "   writes an UNSYNCHRONISED global cell (MemRegistry, Environment, Device, logger handles, ...) *)\n"
+        "Definition unsync_uses : list (string * string * string * bool) :=\n  [%s].\n" % ubody)
+
+
+def emit_cells(body, repo):
     return ("(* GENERATED by translators/shared_mutable.py from %s/src on every run of ./check C07 -- do not edit. *)\n"
             "From Coq Require Import String List.\nImport ListNotations.\nLocal Open Scope string_scope.\n\n"
             "(* (file, identifier, kind) of every potentially shared mutable cell *)\n"
@@ -242,7 +393,8 @@ def main(argv):
     out = argv[1] if len(argv) > 1 else OUT
     cells = generate(REPO)
     os.makedirs(os.path.dirname(out), exist_ok=True)
-    txt = emit(cells)
+    uses = generate_uses(REPO)
+    txt = emit(cells, REPO, uses)
     old = open(out).read() if os.path.exists(out) else None
     if old != txt:
         with open(out, "w") as f:
@@ -250,6 +402,9 @@ def main(argv):
     print(json.dumps({"cells": len(cells)}, indent=1))
     for c in cells:
         print("%-55s %-45s %s" % c)
+    print("--- use sites of unsynchronised-cell writers")
+    for u in uses:
+        print("%-50s %-55s %-18s %s" % (u[0], u[1], u[2], "PER-STREAM" if u[3] else ""))
     return 0
 
 
